@@ -100,6 +100,10 @@ def processToken (token : TokToken) (line : Nat) : M SinkResult := do
         setMode .beforeHtml
         pure none
       else
+        -- a DOCTYPE is "anything else" in "in table text": flush the pending table text first
+        if (← getS).mode == .inTableText then
+          let m ← flushPendingTableText
+          setMode m
         parseError "DOCTYPE in body"
         pure none
     | .tag t => pure (some (.tag t))
